@@ -1309,6 +1309,20 @@ class VM:
             if not (isinstance(fn, JSFunction) or callable(fn)):
                 raise JSTypeError(f"{what} is not a function")
 
+        def visit(callback, this_arg, skip_missing=True):
+            """Call callback(element, index, array) for the indices below the
+            length the array had at the start, reading each element when its
+            turn comes; yields (index, element, result).  Indices the callback
+            has removed meanwhile are skipped (or read as undefined)."""
+            for i in range(len(arr._elements)):
+                if i < len(arr._elements):
+                    elem = arr._elements[i]
+                elif skip_missing:
+                    break
+                else:
+                    elem = UNDEFINED
+                yield i, elem, vm._call_callback(callback, [elem, i, arr], this_arg)
+
         def push_fn(*args):
             for arg in args:
                 arr.push(arg)
@@ -1344,11 +1358,9 @@ class VM:
             callback = args[0] if args else None
             this_arg = args[1] if len(args) > 1 else UNDEFINED
             require_callable(callback, "map callback")
-            result = JSArray()
-            result._elements = []
-            for i, elem in enumerate(arr._elements):
-                val = vm._call_callback(callback, [elem, i, arr], this_arg)
-                result._elements.append(val)
+            result = JSArray(len(arr._elements))
+            for i, elem, val in visit(callback, this_arg):
+                result._elements[i] = val
             return result
 
         def filter_fn(*args):
@@ -1357,8 +1369,7 @@ class VM:
             require_callable(callback, "filter callback")
             result = JSArray()
             result._elements = []
-            for i, elem in enumerate(arr._elements):
-                val = vm._call_callback(callback, [elem, i, arr], this_arg)
+            for i, elem, val in visit(callback, this_arg):
                 if to_boolean(val):
                     result._elements.append(elem)
             return result
@@ -1375,6 +1386,8 @@ class VM:
                 acc = arr._elements[0]
                 start_idx = 1
             for i in range(start_idx, len(arr._elements)):
+                if i >= len(arr._elements):
+                    break  # removed by the callback
                 elem = arr._elements[i]
                 acc = vm._call_callback(callback, [acc, elem, i, arr])
             return acc
@@ -1392,6 +1405,8 @@ class VM:
                 acc = arr._elements[length - 1]
                 start_idx = length - 2
             for i in range(start_idx, -1, -1):
+                if i >= len(arr._elements):
+                    continue  # removed by the callback
                 elem = arr._elements[i]
                 acc = vm._call_callback(callback, [acc, elem, i, arr])
             return acc
@@ -1424,8 +1439,8 @@ class VM:
             callback = args[0] if args else None
             this_arg = args[1] if len(args) > 1 else UNDEFINED
             require_callable(callback, "forEach callback")
-            for i, elem in enumerate(arr._elements):
-                vm._call_callback(callback, [elem, i, arr], this_arg)
+            for _ in visit(callback, this_arg):
+                pass
             return UNDEFINED
 
         def indexOf_fn(*args):
@@ -1452,8 +1467,7 @@ class VM:
             callback = args[0] if args else None
             this_arg = args[1] if len(args) > 1 else UNDEFINED
             require_callable(callback, "find callback")
-            for i, elem in enumerate(arr._elements):
-                val = vm._call_callback(callback, [elem, i, arr], this_arg)
+            for i, elem, val in visit(callback, this_arg, skip_missing=False):
                 if to_boolean(val):
                     return elem
             return UNDEFINED
@@ -1462,8 +1476,7 @@ class VM:
             callback = args[0] if args else None
             this_arg = args[1] if len(args) > 1 else UNDEFINED
             require_callable(callback, "findIndex callback")
-            for i, elem in enumerate(arr._elements):
-                val = vm._call_callback(callback, [elem, i, arr], this_arg)
+            for i, elem, val in visit(callback, this_arg, skip_missing=False):
                 if to_boolean(val):
                     return i
             return -1
@@ -1472,8 +1485,7 @@ class VM:
             callback = args[0] if args else None
             this_arg = args[1] if len(args) > 1 else UNDEFINED
             require_callable(callback, "some callback")
-            for i, elem in enumerate(arr._elements):
-                val = vm._call_callback(callback, [elem, i, arr], this_arg)
+            for i, elem, val in visit(callback, this_arg):
                 if to_boolean(val):
                     return True
             return False
@@ -1482,8 +1494,7 @@ class VM:
             callback = args[0] if args else None
             this_arg = args[1] if len(args) > 1 else UNDEFINED
             require_callable(callback, "every callback")
-            for i, elem in enumerate(arr._elements):
-                val = vm._call_callback(callback, [elem, i, arr], this_arg)
+            for i, elem, val in visit(callback, this_arg):
                 if not to_boolean(val):
                     return False
             return True
